@@ -113,11 +113,26 @@ def deb_timing():
     fake = type("T", (), {})()
     fake.Condition = VCond
     debmod.threading = fake
+    # every clock the module can read is the virtual one (a debouncer that keeps a deadline of its own reads it there)
+    vt = type("VT", (), {})()
+    vt.time = vt.monotonic = vt.perf_counter = lambda: 1000.0 + clk["t"]
+    vt.sleep = lambda dt: None
+    old_time = getattr(debmod, "time", None)
+    if old_time is not None:
+        debmod.time = vt
     got = []
     try:
         d = EventDebouncer(10, lambda evs: got.append((clk["t"], list(evs))))
     finally:
         debmod.threading = old
+    try:
+        return _deb_timing_body(d, clk, got)
+    finally:
+        if old_time is not None:
+            debmod.time = old_time
+
+
+def _deb_timing_body(d, clk, got):
     d.start()
     realtime.sleep(0.1)
     out = []
